@@ -245,6 +245,47 @@ def default_models():
         return SArr(m, lambda k: I.binop('Sub', a.at(k + 1), a.at(k)))
     reg('numpy.diff', _diff)
 
+    def _digitize(I, x, bins, right=False):
+        """np.digitize(x, bins, right) for a bin list of concrete length: for non-decreasing bins the number of bins below x
+        (right: strictly below), for decreasing bins the number of bins above x (right: at or above); bins that are neither
+        are refused with ValueError, as numpy does."""
+        bl = [to_real(b) for b in I.iterate(bins)]
+        inc = z3.And(*[bl[i] <= bl[i + 1] for i in range(len(bl) - 1)]) if len(bl) > 1 else z3.BoolVal(True)
+        dec = z3.And(*[bl[i] >= bl[i + 1] for i in range(len(bl) - 1)]) if len(bl) > 1 else z3.BoolVal(True)
+        if I.truth(z3.simplify(inc)):
+            cnt = (lambda v: z3.Sum([z3.If(b < v, 1, 0) for b in bl])) if right else (lambda v: z3.Sum([z3.If(b <= v, 1, 0) for b in bl]))
+        elif I.truth(z3.simplify(dec)):
+            cnt = (lambda v: z3.Sum([z3.If(b >= v, 1, 0) for b in bl])) if right else (lambda v: z3.Sum([z3.If(b > v, 1, 0) for b in bl]))
+        else:
+            I.raise_('ValueError', 'bins must be monotonically increasing or decreasing')
+        if isinstance(x, SArr):
+            return SArr(x.length, lambda k: cnt(to_real(x.at(k))))
+        return cnt(to_real(x))
+    reg('numpy.digitize', _digitize)
+
+    def _np_copy(I, a, **kw):
+        if isinstance(a, SArr):
+            return I.call(I.getattr(a, 'copy'), [], {})
+        return _array(I, a)
+    reg('numpy.copy', _np_copy)
+
+    def _array_equal(I, a, b, **kw):
+        if a is b:
+            return True
+        if isinstance(a, SArr) and isinstance(b, SArr) and a.fn is b.fn and \
+                (a.length is b.length or (not is_sym(a.length) and not is_sym(b.length) and a.length == b.length) or
+                 (is_sym(a.length) and is_sym(b.length) and z3.eq(to_z3(a.length), to_z3(b.length)))):
+            return True         # an unmodified copy: the same element function over the same length
+        if isinstance(a, SArr) and isinstance(b, SArr) and isinstance(a.length, int) and isinstance(b.length, int):
+            if a.length != b.length:
+                return False
+            r = True
+            for k in range(a.length):
+                r = I.and_(r, I.compare('==', a.at(k), b.at(k)))
+            return r
+        raise Unsupported('np.array_equal of two different symbolic-length arrays')
+    reg('numpy.array_equal', _array_equal)
+
     def _cumtrapz(I, y, x=None, dx=1, axis=-1, initial=None):
         """scipy.integrate.cumulative_trapezoid(y, dx=dx): r[j] = sum_{i<=j} dx*(y[i]+y[i+1])/2, length n-1 (assumed
         contract).  For a symbolic length the result is a prefix function C with C(j+1) = C(j) + dx*(y[j+1]+y[j+2])/2,
@@ -253,18 +294,20 @@ def default_models():
             raise Unsupported('cumulative_trapezoid with x= / initial=')
         y = y.snapshot()
         n = y.length
+        # dx may be one spacing or an array of n - 1 spacings (broadcast element-wise against the n - 1 trapezoids)
+        dxa = dx.snapshot() if isinstance(dx, SArr) else None
+        dx_at = (lambda j: dxa.at(j)) if dxa is not None else (lambda j: dx)
         if isinstance(n, int):
             out, acc = [], 0
             for j in range(n - 1):
-                acc = I.binop('Add', acc, I.binop('Div', I.binop('Mult', dx, I.binop('Add', y.at(j), y.at(j + 1))), 2))
+                acc = I.binop('Add', acc, I.binop('Div', I.binop('Mult', dx_at(j), I.binop('Add', y.at(j), y.at(j + 1))), 2))
                 out.append(acc)
             return SArr.from_list(out)
         I.hooks['cumtrapz_count'] = I.hooks.get('cumtrapz_count', 0) + 1
         C = z3.Function(f'cumtrapz_{I.hooks["cumtrapz_count"]}', z3.IntSort(), z3.RealSort())
-        dxr = to_real(dx)
 
         def step(j):
-            return dxr * (to_real(y.at(j)) + to_real(y.at(j + 1))) / 2
+            return to_real(dx_at(j)) * (to_real(y.at(j)) + to_real(y.at(j + 1))) / 2
         I.ctx.axiom(C(0) == step(z3.IntVal(0)))
 
         def fn(k):
@@ -403,12 +446,20 @@ def default_models():
     reg('numpy.asarray', lambda I, x, dtype=None, **kw: x if isinstance(x, SArr) and x.kind == 'ndarray' else _array(I, x))
     reg('numpy.atleast_1d', _array)
 
-    def _full(I, n, v, **kw):
+    def _full(I, n, v, dtype=None, **kw):
         if isinstance(n, tuple):
             if len(n) != 1:
                 raise Unsupported('2-D array')
             n = n[0]
-        return SArr(n, lambda k: v)
+        # numpy takes the element type from the fill value unless told otherwise: an integer fill value makes an integer
+        # array, and whatever is assigned into it later is truncated to whole numbers
+        is_int = (isinstance(v, int) and not isinstance(v, bool)) or (isinstance(v, z3.ArithRef) and v.is_int())
+        want = getattr(dtype, 'name', None) or (dtype if isinstance(dtype, str) else None)
+        if dtype is not None and want not in ('float', 'numpy.float64', 'float64', 'int', 'numpy.int64', 'int64'):
+            raise Unsupported(f'np.full dtype {dtype!r}')
+        if (dtype is None and is_int) or want in ('int', 'numpy.int64', 'int64'):
+            return SArr(n, lambda k: v, dtype='int')
+        return SArr(n, (lambda k: to_real(v)) if is_int else (lambda k: v))
     reg('numpy.full', _full)
     reg('numpy.zeros', lambda I, n, **kw: _full(I, n, Fraction(0)))
     reg('numpy.ones', lambda I, n, **kw: _full(I, n, Fraction(1)))
